@@ -357,8 +357,25 @@ def well_formed(mesh):
     return True
 
 
+def zero_face_geom(mesh):
+    """A domain placed around the origin with cell sizes that are not binary fractions: the lower corner is -k * dx with k the
+    lower index of a level-0 box that does not start the domain (half the domain where there is one box), so a box face lies
+    at the coordinate 0.0 exactly in the Header (lo + k * dx), while a bound recomputed another way (a linspace of cell centres
+    minus half a cell) comes out as +-1e-18: comparisons of box bounds need their absolute tolerance there."""
+    dxs = [0.0025, 0.001875, 0.03]
+    lo, dx0 = [], []
+    for d in range(mesh.ndims):
+        ks = sorted(set(b[0][d] for b in mesh.boxes[0] if b[0][d] > 0)) or [max(1, mesh.ncell0[d] // 2)]
+        dx0.append(dxs[d])
+        lo.append(-ks[-1] * dxs[d])
+    return lo, dx0
+
+
 def make_ref(pid, mesh, fields, layout=None, geom=0, **kw):
-    lo, dx0 = GEOMS[mesh.ndims][geom % len(GEOMS[mesh.ndims])]
+    if geom == 'zero-face':
+        lo, dx0 = zero_face_geom(mesh)
+    else:
+        lo, dx0 = GEOMS[mesh.ndims][geom % len(GEOMS[mesh.ndims])]
     return Ref(pid, mesh.ndims, fields, mesh.ncell0, mesh.boxes, layout=layout, lo=lo, dx0=dx0, **kw)
 
 
